@@ -12,9 +12,10 @@ for d in rows:
 table = "\n".join(lines)
 n = len(rows)
 missed = sum(1 for d in rows if "missed" in (d["detection"].get("history") or d["detection"]["caught_by"]))
+gaps = sum(1 for d in rows if d.get("open_gap"))
 summary = (f"{n} changes kept ({', '.join(p + ': ' + str(sum(1 for d in rows if d['property'] == p)) for p in ['C07', 'C09', 'C15', 'C18'])}); "
            f"{n - missed} were reported by the quick check as it stood when the change arrived, {missed} were missed and led to a stronger oracle or workload "
-           f"(named in the table); all {n} are now killed by `./check selftest mutants`.")
+           f"(named in the table); {gaps} of them could not be closed and are recorded as open gaps, the other {n - gaps} are killed by `./check selftest mutants`.")
 block = "<!-- SEEDED_TABLE_BEGIN -->\n" + summary + "\n\n" + table + "\n<!-- SEEDED_TABLE_END -->"
 p = os.path.join(root, "DESIGN.md")
 s = open(p).read()
